@@ -159,3 +159,40 @@ Proof.
     apply Z.eqb_eq in H. exact H.
 Qed.
 
+
+(* ---- all levels, orthonormal filter banks (c = 1): waverec (wavedec x) = x ---- *)
+Section PRLevels.
+  Variable R : StarRing.
+  Add Ring RrPRL : (k_ring R).
+  Local Open Scope K_scope.
+  Notation vec := (nat -> R).
+
+  Theorem wavedec_perfect_reconstruction level : forall L n (flo fhi glo ghi : vec), (0 < L)%nat ->
+    pr_cond L flo fhi glo ghi k1 ->
+    forall (x : vec) t, (t < n)%nat ->
+      adj (wavedec_op level L n flo fhi glo ghi) (fwd (wavedec_op level L n flo fhi glo ghi) x) t = x t.
+  Proof.
+    induction level as [|l IH]; intros L n flo fhi glo ghi HL HPR x t Ht; cbn [wavedec_op].
+    - reflexivity.
+    - set (m := wlen L n). set (W := wavedec_op l L m flo fhi glo ghi). set (D := dwt1 L n flo fhi glo ghi).
+      cbn [comp fwd adj].
+      assert (HdW : dom W = m) by apply wavedec_dom'.
+      assert (HrD : ran D = (m + m)%nat) by reflexivity.
+      assert (HdD : dom D = n) by reflexivity.
+      destruct (wavedec_wf R l L m flo fhi glo ghi) as (_ & EW & _ & EW'). fold W in EW, EW'.
+      assert (WD : wf D) by (unfold D, dwt1; apply vstack_wf; [reflexivity|apply band_wf|apply band_wf]).
+      destruct WD as (_ & _ & _ & ED').
+      set (y := fwd D x).
+      (* the block-diagonal step gives y back on all 2m entries *)
+      assert (Hb : forall j, (j < m + m)%nat -> adj (bdiag W (idop (R:=R) m)) (fwd (bdiag W (idop (R:=R) m)) y) j = y j).
+      { intros j Hj. cbn [bdiag idop dom ran fwd adj]. rewrite HdW.
+        destruct (Nat.ltb_spec j m) as [Hjm|Hjm].
+        - rewrite (EW' _ (fwd W y)); [apply IH; assumption| |rewrite HdW; exact Hjm].
+          intros i Hi. destruct (Nat.ltb_spec i (ran W)); [reflexivity|lia].
+        - destruct (Nat.ltb_spec (ran W + (j - m)) (ran W)); [lia|].
+          replace (ran W + (j - m) - ran W)%nat with (j - m)%nat by lia. f_equal. lia. }
+      rewrite (ED' _ y); [| |rewrite HdD; exact Ht].
+      + unfold y, D. rewrite (dwt1_perfect_reconstruction R L n flo fhi glo ghi k1 HL HPR x t Ht). ring.
+      + intros j Hj. rewrite HrD in Hj. apply Hb. exact Hj.
+  Qed.
+End PRLevels.
